@@ -73,11 +73,10 @@ theorem npm_flush : NPM flushM := by
 theorem npm_write (b : Bytes) : NPM (writeM b) := by
   intro s
   unfold writeM
+  simp only
   split
   · exact .ret _
-  · split
-    · exact .ret _
-    · exact .call _ _ (fun r => by cases r <;> first | exact .ret _ | exact .fail _)
+  · exact .call _ _ (fun r => by cases r <;> first | exact .ret _ | exact .fail _)
 
 theorem npm_trimLeft : NPM trimLeftM := by
   intro s
